@@ -116,6 +116,27 @@ def gen_case(seed):
         sc["fates"]["blackouts"] = [bo]
         sc["fates"]["adv_seconds"] = 1e9
         sc["fates"]["adv_dgrams"] = 10**9
+    r5 = random.Random("c09-ampblocked/%s" % seed)
+    if r5.random() < 0.07:
+        # directed: the server application closes while the server cannot send a single byte: its first flight (a
+        # certificate chain larger than three datagrams) and the probe retransmissions have used up the
+        # anti-amplification budget of the never-validated client address exactly, and nothing arrives any more.
+        # The closing period still has to start and end (termination within three probe timeouts of the close).
+        mode = "close-amplification-blocked"
+        for k in ("retry", "frontend_vn", "resume", "resume_forget", "original_version"):
+            sc["opts"].pop(k, None)
+        sc["opts"].pop("versions_server", None)
+        sc["opts"].pop("versions_client", None)
+        sc["opts"].pop("cert_kind", None)
+        sc["opts"]["certfile"] = "ssl_cert_with_chain.pem"
+        sc["opts"]["mds_server"] = r5.choice([1200, 1200, 1252, 1350, 1452])
+        sc["opts"]["idle_client"] = sc["opts"]["idle_server"] = r5.choice([10.0, 60.0])
+        sc["fates"] = {"delay": sc["fates"]["delay"], "adv_seconds": 1e9, "adv_dgrams": 10**9, "loss": 0.0,
+                       "blackouts": [[r5.choice([0.0005, 0.0005, 0.03]), 1e9, "c2s"]]}
+        app = r5.random() < 0.5
+        sc["script"] = [{"t": r5.choice([0.3, 0.65, 1.0, 2.5, 6.0]), "side": "server", "op": "close", "early": True, "code": r5.choice([0, 7, 0x10E]),
+                         "frame_type": None if app else 6, "reason": r5.choice(["", "bye"])}]
+        sc["lateness"] = 0.0
     sc["script"].sort(key=lambda o: o["t"])
     sc["horizon"] = 400.0
     sc["mode"] = mode
@@ -226,7 +247,7 @@ def run_batch(batch):
         cm = monitors.CloseMonitor(on_time=on_time)
         dm = monitors.DeliveryModel(forbid_termination=False, completion=False)
         sim, ok = run_case(sc, [tm, cm, dm], res, {"gen": "close", "seeds": [seed]},
-                           counters=("closing_checks", "deadline_checks", "idle_checks"),
+                           counters=("closing_checks", "deadline_checks", "idle_checks", "api_close_deadline_checks"),
                            nontrivial=lambda s: bool(cm.term),
                            sig_extra=(sc["mode"], tuple(sorted(cm.close_kinds)), on_time, sc["opts"]["idle_client"], sc["opts"]["idle_server"]))
         for k in cm.close_kinds:
